@@ -13,6 +13,7 @@ import RotoV.Lemmas.LayoutPath
 import RotoV.Lemmas.LayoutClone
 import RotoV.Lemmas.LayoutEq
 import RotoV.Lemmas.LayoutTotal
+import RotoV.Lemmas.LayoutDrop
 
 namespace RotoV.C02
 open RotoV RotoV.Layout RotoV.LayoutStd RotoV.Gen.LayoutGen
@@ -326,5 +327,36 @@ theorem generated_functions_total (t : Ty) :
     (cloneOps t).isPanic = false ∧ (dropOps t).isPanic = false ∧ (eqOps true t).isPanic = false ∧
     lowerType t ≠ .panic :=
   ⟨(generated_ops_total t).1, (generated_ops_total t).2.1, (generated_ops_total t).2.2, lowerType_total t⟩
+
+/-- **T7 `drop_releases_each_handle_once`** — for every inhabited type tree and
+    every stored value that decodes, running the generated drop function
+    (`dropTy`: `call_drop_of` + `generate_drop_body_record/_enum`, with the
+    `needs_drop` tests and the `Switch` whose default is the last variant)
+    performs exactly one runtime drop per owned handle of the value — every
+    String / List / registered `Clone` leaf reachable through records and the
+    variant the tag selects, at the address `layout_of` places it — in field
+    order, and nothing else (nothing in padding, nothing in the storage of
+    another variant, nothing twice). Together with T5 (a clone reproduces every
+    handle) this is what lets C03 count clones and drops per leaf. -/
+theorem drop_releases_each_handle_once (t : Ty) (L : Layout) (hL : layoutOf t = some L) (m : Mem) (a : Nat)
+    (v : V) (hv : decode m t a = some v) :
+    dropTy m t a = handles m t a :=
+  dropTy_handles m t L hL a v hv
+
+/-- the executed drop loop is the listed one (cf. `executed_loops_are_the_listed_visits`) -/
+theorem executed_drop_loop_is_the_listed_visits (fs : Tys) (m : Mem) (a : Nat) :
+    dropFields m fs LayoutBuilder.new a =
+      (dropRecordVisits fs).flatMap (fun v => dropTy m v.2.2 (a + v.2.1)) :=
+  dropFields_eq_visits m fs 0 _ a
+
+/-- non-vacuity of T7: `{s: String, e: enum { V0(List), V1(u8) }}` holding
+    `V0` drops the string and the list; holding `V1` only the string -/
+example :
+    let t := Ty.record (.cons (.leaf .string 2 1)
+      (.cons (.enum (.cons (.cons (.leaf .list 1 1) .nil) (.cons (.cons (.leaf .int 1 1) .nil) .nil))) .nil))
+    let m0 : Mem := fun _ => 0
+    let m1 : Mem := fun x => if x = 2 then 1 else 0
+    dropTy m0 t 0 = [(.string, 0), (.list, 3)] ∧ dropTy m1 t 0 = [(.string, 0)] := by
+  exact ⟨rfl, rfl⟩
 
 end RotoV.C02
